@@ -743,6 +743,114 @@ func (g *gctx) date(d int) *node {
 }
 
 //-------------------------------------------------------------------
+// arithmetic sub-generator: * / + - chains over columns and small constants
+// (several non-constant divisors, results compared exactly in the extend form)
+
+var smallDecLits = []string{".1", ".2", ".3", ".5", ".25", ".75", "1.5", "2.5", "1.1", "3.3", ".7", "0.125", "1e2", "2.0"}
+
+func (g *gctx) smallConst() *node {
+	var l string
+	switch g.w(6, 2, 3) {
+	case 0:
+		l = fmt.Sprint(1 + g.u(12))
+	case 1:
+		l = fmt.Sprint(-1 - g.u(12))
+	default:
+		l = pick(g, smallDecLits)
+	}
+	x := lit(l)
+	g.pool = append(g.pool, x)
+	return &node{op: "const", c: x}
+}
+
+func (g *gctx) arithAtom() *node {
+	if g.chance(70) {
+		return &node{op: "col", col: pick(g, cols)}
+	}
+	return g.smallConst()
+}
+
+// arithTerm: x * y / z / w ... with a column first (so the folder does not
+// put a divisor first) and divisions at least as likely as multiplications.
+func (g *gctx) arithTerm(d int) *node {
+	n := 2 + g.w(2, 4, 3, 1)
+	kids := make([]*node, n)
+	signs := ""
+	for i := range kids {
+		switch {
+		case i == 0 && g.chance(85):
+			kids[i] = &node{op: "col", col: pick(g, cols)}
+		case d > 0 && g.chance(15):
+			kids[i] = g.arithSum(d - 1)
+		default:
+			kids[i] = g.arithAtom()
+		}
+		if i > 0 {
+			signs += pick(g, []string{"/", "/", "/", "*", "*"})
+		}
+	}
+	return &node{op: "chain*", signs: signs, kids: kids}
+}
+
+func (g *gctx) arithSum(d int) *node {
+	n := 2 + g.u(2)
+	kids := make([]*node, n)
+	signs := ""
+	for i := range kids {
+		if g.chance(55) {
+			kids[i] = g.arithTerm(d - 1)
+		} else {
+			kids[i] = g.arithAtom()
+		}
+		if i > 0 {
+			signs += pick(g, []string{"+", "-"})
+		}
+	}
+	return &node{op: "chain+", signs: signs, kids: kids}
+}
+
+// arith: an arithmetic expression, bare (extend compares the number exactly;
+// the where form then sees a non-boolean) or compared with a constant / another term.
+func (g *gctx) arith() *node {
+	var e *node
+	switch g.w(5, 3, 1) {
+	case 0:
+		e = g.arithTerm(1)
+	case 1:
+		e = g.arithSum(1)
+	default:
+		e = &node{op: pick(g, []string{"neg", "%"}), kids: []*node{g.arithTerm(1)}}
+		if e.op == "%" {
+			e.kids = append(e.kids, g.smallConst())
+		}
+	}
+	switch g.w(5, 3, 2) {
+	case 0:
+		return e
+	case 1:
+		return &node{op: g.cmpOp(), kids: []*node{e, g.smallConst()}}
+	default:
+		return &node{op: g.cmpOp(), kids: []*node{e, g.arithTerm(0)}}
+	}
+}
+
+// arithRowValue: small non-zero integers, short decimals, and the general classes.
+func (g *gctx) arithRowValue(col string) *val {
+	switch g.w(45, 10, 20, 3, 22) {
+	case 0:
+		return mkVal(core.IntVal(1+g.u(12)), "")
+	case 1:
+		return mkVal(core.IntVal(-1-g.u(12)), "")
+	case 2:
+		return lit(pick(g, smallDecLits))
+	case 3:
+		return lit("0")
+	default:
+		return g.rowValue(col)
+	}
+}
+
+//-------------------------------------------------------------------
 // row values
 
 var extraStrs = []string{"", "a", "ab", "abc", "b", "A", "5", " ", "abd", "ab\x00", "\x00", "\xff", "aa"}
